@@ -695,6 +695,13 @@ func denoteObject(s *gen.Shape, raw any, env *gen.Env, depth int, shorthand map[
 			continue
 		}
 		out[p.Name] = r.Val
+		if iv, isInt := r.Val.(int64); isInt && s.Struct != "" {
+			// the native form is a Go struct: an integer outside the range of the field it is mapped to has no
+			// native form, so no correct implementation can accept it
+			if why := outsideField(s.Struct, p.Name, iv); why != "" {
+				return rej("%s: %s", p.Name, why)
+			}
+		}
 	}
 	if w := PresenceViolation(s, set); w != "" {
 		if verdict == Unspec {
@@ -819,4 +826,39 @@ func memberIsMapBased(t *gen.Shape, env *gen.Env) bool {
 		}
 	}
 	return true
+}
+
+// outsideField reports why the integer cannot be held by the field of the pool struct that the property is mapped to.
+func outsideField(structName, prop string, v int64) string {
+	z := gen.ZeroStruct(structName)
+	if z == nil {
+		return ""
+	}
+	t := reflect.TypeOf(z)
+	for t.Kind() == reflect.Pointer {
+		t = t.Elem()
+	}
+	if t.Kind() != reflect.Struct {
+		return ""
+	}
+	f, ok := fieldFor(t, prop)
+	if !ok {
+		return ""
+	}
+	ft := f.Type
+	for ft.Kind() == reflect.Pointer {
+		ft = ft.Elem()
+	}
+	zero := reflect.Zero(ft)
+	switch ft.Kind() {
+	case reflect.Int, reflect.Int8, reflect.Int16, reflect.Int32, reflect.Int64:
+		if zero.OverflowInt(v) {
+			return fmt.Sprintf("%d does not fit the Go field of type %s", v, ft)
+		}
+	case reflect.Uint, reflect.Uint8, reflect.Uint16, reflect.Uint32, reflect.Uint64:
+		if v < 0 || zero.OverflowUint(uint64(v)) {
+			return fmt.Sprintf("%d does not fit the Go field of type %s", v, ft)
+		}
+	}
+	return ""
 }
